@@ -8,8 +8,9 @@ sys.path.insert(0, os.path.dirname(os.path.abspath(__file__)))
 V = os.path.dirname(os.path.dirname(os.path.abspath(__file__)))
 ids = [json.loads(l)["id"] for l in open(os.path.join(V, "properties.jsonl"))]
 checks, na, served = [], [], []
+ready = set(open(os.path.join(V, "tools", "READY")).read().split())
 for pid in ids:
-  if not os.path.exists(os.path.join(V, "tools", "props", f"{pid}.py")):
+  if pid not in ready or not os.path.exists(os.path.join(V, "tools", "props", f"{pid}.py")):
     na.append(dict(property_id=pid, reason="check not built yet in this round (planned, see DESIGN.md section 7); not a claim that the technique cannot apply"))
     continue
   m = importlib.import_module(f"props.{pid}")
